@@ -96,6 +96,7 @@ func main() {
 
 	singles(w)
 	histories(w)
+	batches(w)
 	w.Finish()
 }
 
@@ -314,3 +315,97 @@ type uniq struct {
 
 func (u *uniq) Apply(i int) (string, string) { u.h = append(u.h, i); return u.Sys.Apply(i) }
 func (u *uniq) Key() string                  { return fmt.Sprint(u.h) }
+
+// ---- several reports in one read ----
+
+type bitem struct {
+	name  string
+	bytes []byte
+	key   rune // != 0: a plain key instead of a report
+	code  int
+	rel   bool
+}
+
+// batches: every sequence of 2 or 3 (thorough: up to 4) items - SGR and X11 reports with both
+// introducers, and a plain key - delivered in ONE read: the events must be the reference
+// decodings of the items in order (a report must consume exactly its own bytes).
+func batches(w *hc.W) {
+	if *hc.Shard != 0 {
+		return
+	}
+	var items []bitem
+	for _, intro := range []string{"\x1b[", "\x9b"} {
+		n := map[string]string{"\x1b[": "7bit", "\x9b": "8bit"}[intro]
+		items = append(items,
+			bitem{name: "sgr-press0/" + n, bytes: sgr(intro, 0, 3, 2, 'M'), code: 0},
+			bitem{name: "sgr-release0/" + n, bytes: sgr(intro, 0, 3, 2, 'm'), code: 0, rel: true},
+			bitem{name: "sgr-wheel/" + n, bytes: sgr(intro, 64, 3, 2, 'M'), code: 64},
+			bitem{name: "x11-press0+ctrl/" + n, bytes: x11(intro, 16+32, 33+2, 33+1), code: 16},
+			bitem{name: "x11-release/" + n, bytes: x11(intro, 3+32, 33+2, 33+1), code: 3},
+		)
+	}
+	items = append(items, bitem{name: "key-3", bytes: []byte("3"), key: '3'}, bitem{name: "key-M", bytes: []byte("M"), key: 'M'})
+	maxLen := 3
+	if hc.Thorough() {
+		maxLen = 4
+	}
+	r := newRig(80, 24, "UTF-8")
+	idx := make([]int, maxLen)
+	var cases int64
+	for n := 2; n <= maxLen; n++ {
+		for i := range idx[:n] {
+			idx[i] = 0
+		}
+		for {
+			r.p.Reset()
+			var st ri.MouseState
+			var all []byte
+			var names []string
+			for _, k := range idx[:n] {
+				all = append(all, items[k].bytes...)
+				names = append(names, items[k].name)
+			}
+			got := r.feed(all)
+			cases++
+			ok := len(got) == n
+			firstBad := ""
+			var want []string
+			for j, k := range idx[:n] {
+				it := items[k]
+				if it.key != 0 {
+					want = append(want, fmt.Sprintf("Rune(%q)", it.key))
+					if (ok || len(got) != n) && firstBad == "" && !(j < len(got) && got[j].Kind == "key" && got[j].Key == tcell.KeyRune && got[j].Rune == it.key && got[j].Mod == 0) {
+						ok = false
+						firstBad = it.name
+					}
+					continue
+				}
+				exp := st.Decode(it.code, 3, 2, it.rel, r.w, r.h)
+				want = append(want, exp.String())
+				if (ok || len(got) != n) && firstBad == "" && !(j < len(got) && match(got[j:j+1], exp)) {
+					ok = false
+					firstBad = it.name
+				}
+			}
+			if !ok {
+				w.Violation("batch:first-wrong:"+firstBad, fmt.Sprintf("one read %s (%s) decodes to %s, want %s", q(all), strings.Join(names, ", "), fmtEvs(got), strings.Join(want, "; ")),
+					map[string]interface{}{"W": 80, "H": 24, "Charset": "UTF-8", "Reports": []string{string(all)}})
+			}
+			// next index vector
+			j := n - 1
+			for j >= 0 {
+				idx[j]++
+				if idx[j] < len(items) {
+					break
+				}
+				idx[j] = 0
+				j--
+			}
+			if j < 0 {
+				break
+			}
+		}
+	}
+	w.R.Evaluations += cases
+	w.R.Scenarios["batches"] = fmt.Sprintf("%d sequences of 2..%d items (5 reports x 2 introducers + 2 keys) in one read", cases, maxLen)
+}
